@@ -18,7 +18,11 @@ Ev == {"AttS1", "AttR2", "AttDup", "Refuse4", "DetS1", "CloseS1", "DropS1", "Clo
        \* after the first session has ended the peer answers a new session on the same channel number (3): its frames belong to the new session
        "Beg3", "AttS5", "Send5",
        \* a delivery arrives on the receiving link and is never read; the peer answers a local end with an error
-       "In2", "End1PErr"}
+       "In2", "End1PErr",
+       \* frames of the peer that were on their way when the endpoint ended the session (plain / with an error): nothing is answered after the end
+       "End1Traffic", "End1errTraffic",
+       \* the application has seen the peer's detach (on_detach) and then drops the handle: the detach is still answered
+       "PDetS1seenDrop"}
 ClientOnly == {"AttDup", "Refuse4"}
 Enabled(e) ==
   (Side = "client" \/ e \notin ClientOnly) /\
@@ -26,7 +30,7 @@ Enabled(e) ==
     [] e = "AttR2" -> ~ended1 /\ "L2" \notin att
     [] e = "AttDup" -> ~ended1 /\ "L1" \in att /\ "L1" \notin pdet
     [] e = "Refuse4" -> ~ended1
-    [] e \in {"DetS1", "CloseS1", "DropS1", "PDetS1err", "PDetS1nc", "PDetS1idle", "PDetS1close", "PDetS1drop", "Send1", "SendDrop1", "SendDet1"} -> ~ended1 /\ "L1" \in att /\ "L1" \notin pdet
+    [] e \in {"DetS1", "CloseS1", "DropS1", "PDetS1err", "PDetS1nc", "PDetS1idle", "PDetS1close", "PDetS1drop", "PDetS1seenDrop", "Send1", "SendDrop1", "SendDet1"} -> ~ended1 /\ "L1" \in att /\ "L1" \notin pdet
     [] e \in {"CloseR2", "PCloseR2", "In2"} -> ~ended1 /\ "L2" \in att /\ "L2" \notin pdet
     [] e = "Beg2" -> ~s2
     [] e = "Beg3" -> ended1 /\ ~s3
@@ -36,15 +40,15 @@ Enabled(e) ==
     [] e = "Send3" -> s2 /\ "L3" \in att
     [] e = "End2" -> s2
     [] e \in {"End1", "End1err", "PEnd1", "PEnd1err", "End1PErr"} -> ~ended1
-    [] e \in {"SendEnd1", "SendQEndErr1", "DropEndErr1"} -> ~ended1 /\ "L1" \in att /\ "L1" \notin pdet
+    [] e \in {"SendEnd1", "SendQEndErr1", "DropEndErr1", "End1Traffic", "End1errTraffic"} -> ~ended1 /\ "L1" \in att /\ "L1" \notin pdet
 Step(e) ==
   /\ Len(script) < Depth /\ Enabled(e) /\ script' = Append(script, e)
   /\ att' = CASE e = "AttS1" -> att \cup {"L1"} [] e = "AttR2" -> att \cup {"L2"} [] e = "AttS3" -> att \cup {"L3"} [] e = "AttS5" -> att \cup {"L5"}
-              [] e \in {"DetS1", "CloseS1", "DropS1", "SendDrop1", "SendDet1", "PDetS1close", "PDetS1drop"} -> att \ {"L1"} [] e = "CloseR2" -> att \ {"L2"}
-              [] e \in {"End1", "End1err", "PEnd1", "PEnd1err", "End1PErr", "SendEnd1", "SendQEndErr1", "DropEndErr1"} -> att \ {"L1", "L2"} [] e = "End2" -> att \ {"L3"} [] OTHER -> att
+              [] e \in {"DetS1", "CloseS1", "DropS1", "SendDrop1", "SendDet1", "PDetS1close", "PDetS1drop", "PDetS1seenDrop"} -> att \ {"L1"} [] e = "CloseR2" -> att \ {"L2"}
+              [] e \in {"End1", "End1err", "PEnd1", "PEnd1err", "End1PErr", "SendEnd1", "SendQEndErr1", "DropEndErr1", "End1Traffic", "End1errTraffic"} -> att \ {"L1", "L2"} [] e = "End2" -> att \ {"L3"} [] OTHER -> att
   /\ s2' = IF e = "Beg2" THEN TRUE ELSE IF e = "End2" THEN FALSE ELSE s2
   /\ s3' = (s3 \/ e = "Beg3")
-  /\ ended1' = (ended1 \/ e \in {"End1", "End1err", "PEnd1", "PEnd1err", "End1PErr", "SendEnd1", "SendQEndErr1", "DropEndErr1"})
+  /\ ended1' = (ended1 \/ e \in {"End1", "End1err", "PEnd1", "PEnd1err", "End1PErr", "SendEnd1", "SendQEndErr1", "DropEndErr1", "End1Traffic", "End1errTraffic"})
   /\ pdet' = CASE e \in {"PDetS1err", "PDetS1nc", "PDetS1idle"} -> pdet \cup {"L1"} [] e = "PCloseR2" -> pdet \cup {"L2"} [] OTHER -> pdet
 Next == \E e \in Ev : Step(e)
 Spec == Init /\ [][Next]_vars
@@ -106,6 +110,12 @@ Conc(e, m) ==
     \* the peer closes first and the application answers by closing / dropping its handle: one detach per attach
     [] e = "PDetS1close" -> << [e |-> "AOnDetach", l |-> "L1"], PDet(3, H(5), TRUE, ""), [e |-> "ADetach", l |-> "L1", closed |-> TRUE] >>
     [] e = "PDetS1drop" -> << PDet(3, H(5), TRUE, ""), [e |-> "ADrop", h |-> "l:L1"] >>
+    [] e = "PDetS1seenDrop" -> << [e |-> "AOnDetach", l |-> "L1"], PDet(3, H(5), TRUE, ""), [e |-> "ADrop", h |-> "l:L1"] >>
+    [] e \in {"End1Traffic", "End1errTraffic"} ->
+         << [e |-> "AEnd", s |-> "s1", err |-> IF e = "End1errTraffic" THEN "internal" ELSE ""],
+            [e |-> "PFrame", perf |-> "flow", ch |-> 3, ech |-> 0, f |-> [nii |-> [seen |-> 0], iw |-> 1000, noi |-> 0, ow |-> 100, h |-> H(5), dc |-> [seen |-> 0], lc |-> 50, echo |-> TRUE]],
+            [e |-> "PFrame", perf |-> "flow", ch |-> 3, ech |-> 0, f |-> [nii |-> [seen |-> 0], iw |-> 1000, noi |-> 0, ow |-> 100, echo |-> TRUE]],
+            [e |-> "PFrame", perf |-> "end", ch |-> 3, f |-> [err |-> ""]] >>
     \* work queued and the session ended with an error in the same scheduler turn
     [] e = "SendQEndErr1" -> << [e |-> "ASend", l |-> "L1", m |-> m, len |-> 20, settled |-> TRUE, batchable |-> TRUE, nosettle |-> TRUE],
                                 [e |-> "AEnd", s |-> "s1", err |-> "internal"], [e |-> "PFrame", perf |-> "end", ch |-> 3, f |-> [err |-> ""]] >>
